@@ -45,7 +45,10 @@ func (a *evalAcc) finish() {
 
 func runEvalShards(c *ev.Ctx, spec string, env EnvCfg, blocks []BlockSpec, want string, shards []map[string]string) {
 	p := getPool()
-	mk := func(a map[string]string) Job { return Job{Env: env, Blocks: blocks, Want: []string{want}, Args: a} }
+	// (evaluator shards run thousands of evaluations in one job: their deadline is that of a long job, not of a block history)
+	mk := func(a map[string]string) Job {
+		return Job{Env: env, Blocks: blocks, Want: []string{want}, Args: a, DeadlineSec: 900}
+	}
 	if !chainSelfCheck(c, mk(shards[0])) {
 		return
 	}
